@@ -1211,24 +1211,25 @@ void NifFile::TrimTexturePaths() {
 					std::string tex = i.get();
 					i.get() = fTrimPath(tex);
 				}
+			}
 
-				auto effectShader = dynamic_cast<BSEffectShaderProperty*>(shader);
-				if (effectShader) {
-					std::string tex = effectShader->sourceTexture.get();
-					effectShader->sourceTexture.get() = fTrimPath(tex);
+			// BSEffectShaderProperty has no texture set, its paths are stored in the shader itself
+			auto effectShader = dynamic_cast<BSEffectShaderProperty*>(shader);
+			if (effectShader) {
+				std::string tex = effectShader->sourceTexture.get();
+				effectShader->sourceTexture.get() = fTrimPath(tex);
 
-					tex = effectShader->normalTexture.get();
-					effectShader->normalTexture.get() = fTrimPath(tex);
+				tex = effectShader->normalTexture.get();
+				effectShader->normalTexture.get() = fTrimPath(tex);
 
-					tex = effectShader->greyscaleTexture.get();
-					effectShader->greyscaleTexture.get() = fTrimPath(tex);
+				tex = effectShader->greyscaleTexture.get();
+				effectShader->greyscaleTexture.get() = fTrimPath(tex);
 
-					tex = effectShader->envMapTexture.get();
-					effectShader->envMapTexture.get() = fTrimPath(tex);
+				tex = effectShader->envMapTexture.get();
+				effectShader->envMapTexture.get() = fTrimPath(tex);
 
-					tex = effectShader->envMaskTexture.get();
-					effectShader->envMaskTexture.get() = fTrimPath(tex);
-				}
+				tex = effectShader->envMaskTexture.get();
+				effectShader->envMaskTexture.get() = fTrimPath(tex);
 			}
 		}
 
